@@ -291,6 +291,72 @@ Definition run_case (x : (bool * Z * Z * Z * Z) * list (list op) * list Z) : lis
   | Some c => enc_cfg c
   end.
 
+(* ---- enumeration of all complete schedules (same depth-first order as the harness:
+        lowest enabled thread first), with a budget on the number of leaves ------------ *)
+Definition is_some {A} (o : option A) : bool := match o with Some _ => true | None => false end.
+Definition enabled (c : cfg) : list nat :=
+  filter (fun t => is_some (cstep c t)) (seq 0 (length (thr c))).
+
+Fixpoint enum (fuel : nat) (c : cfg) (acc : nat * list (list Z)) : nat * list (list Z) :=
+  match fuel with
+  | O => (fst acc, [-98] :: snd acc)
+  | S f =>
+      match enabled c with
+      | [] => match fst acc with
+              | O => acc
+              | S b => (b, enc_cfg c :: snd acc)
+              end
+      | en =>
+          fold_left (fun a t =>
+                       match fst a with
+                       | O => a
+                       | S _ => match cstep c t with Some c' => enum f c' a | None => a end
+                       end) en acc
+      end
+  end.
+
+Fixpoint index_of (x : list Z) (l : list (list Z)) (i : Z) : option Z :=
+  match l with
+  | [] => None
+  | y :: r => if zlist_eqb x y then Some i else index_of x r (i + 1)
+  end.
+
+(* distinct outcomes in order of first occurrence, and for every outcome its index *)
+Fixpoint dedup (os seen : list (list Z)) (idx : list Z) : list (list Z) * list Z :=
+  match os with
+  | [] => (seen, rev idx)
+  | o :: r =>
+      match index_of o seen 0 with
+      | Some i => dedup r seen (i :: idx)
+      | None => dedup r (seen ++ [o]) (Z.of_nat (length seen) :: idx)
+      end
+  end.
+
+(* run-length encoding (lossless) of the index sequence: [i; n] = index i repeated n times *)
+Fixpoint rle (cur n : Z) (l : list Z) : list Z :=
+  match l with
+  | [] => [cur; n]
+  | x :: r => if x =? cur then rle cur (n + 1) r else cur :: n :: rle x 1 r
+  end.
+Definition rle_list (l : list Z) : list Z :=
+  match l with [] => [] | x :: r => rle x 1 r end.
+
+(* input: (initial state, programs, leaf budget); output: run-length encoded outcome index of
+   every complete schedule in depth-first order, -9, the distinct outcomes each followed by -8 *)
+Definition run_set (x : (bool * Z * Z * Z * Z) * list (list op) * Z) : list Z :=
+  let '((act, w, p, buf, th), progs, cap) := x in
+  let r := enum 200 (init_cfg (mk_init act w p buf th) progs)
+                (Z.to_nat (Z.min (Z.max cap 0) 20000), []) in
+  let '(seen, idx) := dedup (rev (snd r)) [] [] in
+  rle_list idx ++ [-9] ++ concat (map (fun o => o ++ [-8]) seen).
+
+(* one entry point for the correspondence run: a whole schedule tree or one schedule *)
+Inductive cinput :=
+  | CSet (x : (bool * Z * Z * Z * Z) * list (list op) * Z)
+  | CWalk (x : (bool * Z * Z * Z * Z) * list (list op) * list Z).
+Definition run_any (i : cinput) : list Z :=
+  match i with CSet x => run_set x | CWalk x => run_case x end.
+
 (* the witness of the known finding: thread 0 = send(5), thread 1 = close();
    send reserves under the lock, close runs completely, then send emits *)
 Definition witness_progs : list (list op) := [[OSend 5]; [OClose]].
